@@ -1,2 +1,22 @@
 // property C13, harness c13::asn_set_collect_len3
 // failed: "set iterator not strictly ascending" @ src/c13.rs
+// native replay: dev: panic: src/c13.rs:387:13: set iterator not strictly ascending; release: panic: src/c13.rs:387:13: set iterator not strictly ascending
+// run: cd /verif && ./replay /verif/replays/C13-asn_set_collect_len3.rs
+/// Test generated for harness `c13::asn_set_collect_len3` 
+///
+/// Check for `assertion`: ""set iterator not strictly ascending""
+
+#[test]
+fn kani_concrete_playback_asn_set_collect_len3_6683370196141453377() {
+    let concrete_vals: Vec<Vec<u8>> = vec![
+        // 1266155536
+        vec![16, 0, 120, 75],
+        // 1602093063
+        vec![7, 0, 126, 95],
+        // 1602093063
+        vec![7, 0, 126, 95],
+        // 1602093062
+        vec![6, 0, 126, 95],
+    ];
+    kani::concrete_playback_run(concrete_vals, asn_set_collect_len3);
+}
